@@ -5,4 +5,5 @@ cd "$(dirname "$0")"
 export CARGO_NET_OFFLINE=true
 mkdir -p work evidence violations
 ( cd harness && cargo build --offline --profile verif )
+( cd harness && RUSTFLAGS="-Zsanitizer=address --cfg hv_asan" cargo +nightly build --offline --profile verif --target x86_64-unknown-linux-gnu --target-dir target-asan )
 echo "setup ok"
